@@ -149,8 +149,10 @@ class FuzzyFinder(object):
 
     @staticmethod
     def _check_duplicate_attrs(attrs_list, attr):
+        # Only one value per attribute of the same kind of object can be queried;
+        # equally named attributes of Document, Section and Property are different ones.
         for i in attrs_list:
-            if attr[1][0] == i[1][0]:
+            if attr[0] == i[0] and attr[1][0] == i[1][0]:
                 return False
         return True
 
